@@ -7,6 +7,7 @@ CONSTANTS
   Unusable <- MCUnusable
   Templates <- MCTemplates
   MaxHist = 4
+  Policy = "first_fit"
 INIT Init
 NEXT Next
 INVARIANT TypeOK
@@ -17,4 +18,6 @@ INVARIANT OccupancyIsUnionOfServed
 INVARIANT BlockedChangesNothing
 INVARIANT UserFixedHonouredOrBlocked
 INVARIANT FirstFitIsLowest
+INVARIANT LastFitIsHighest
+INVARIANT FreeSlotServedWhenFeasible
 INVARIANT SameOnEveryOms
